@@ -119,3 +119,94 @@ def run(ctx):
     astro_dep = 'astronomical-quantities = { path = "%s" }\n' % os.path.join(facts.REPO, "astronimical_quantities")
     n += run_matrix(ctx, "astro", ASTRO, [tuple(e) for e in eqs["astronomical_quantities"]], [], astro_dep, "witness-c06-astro")
     ctx.floor("matrix programs judged by rustc", n, 1350 + 1350 + 150)
+    g = run_graphs(ctx)
+    ctx.floor("random-graph programs judged by rustc", g, 2000)
+
+
+# ---------------------------------------------------------------- random derivation graphs
+def random_graph(rnd, n_base=4, n_derived=6):
+    """Conflict-free random derivation graph: returns (type names, equations)."""
+    names = ["B%d" % i for i in range(n_base)]
+    eqs = []
+    used = set()      # by-value (op, A, B) operand keys already generated
+    tries = 0
+    while len(eqs) < n_derived and tries < 200:
+        tries += 1
+        op = rnd.choice(["*", "/"])
+        pool = list(names)
+        A = rnd.choice(pool + ([AMT] if op == "/" else []))
+        B = rnd.choice(pool)
+        if op == "/" and A == B:
+            continue
+        R = "D%d" % len(eqs)
+        cl = rules_c06.derived_closure(R, A, op, B)
+        keys = {(o, x, y) for (o, x, y, r) in cl}
+        if len(keys) != len(cl) or keys & used:
+            continue
+        # standard impls: Q / Q -> AmountT, AmountT * Q, Q * AmountT, Q / AmountT
+        if any((o == "/" and x == y) or (o == "*" and AMT in (x, y)) or (o == "/" and y == AMT) for (o, x, y) in keys):
+            continue
+        used |= keys
+        eqs.append((R, A, op, B))
+        names.append(R)
+    return names, eqs
+
+
+def graph_source(names, eqs, rnd):
+    lines = ["pub mod g {", "    use quantities::prelude::*;"]
+    der = {e[0]: e for e in eqs}
+    for n in names:
+        attr = "#[quantity]" if n not in der else "#[quantity(%s %s %s)]" % (der[n][1], der[n][2], der[n][3])
+        lines.append("    " + attr)
+        lines.append('    #[ref_unit(%s_ref, "%s")]' % (n, n.lower()))
+        for j, sc in enumerate(rnd.sample(["1000", "0.001", "0.5", "60", "1e3", "0.0254", "12"], 2)):
+            lines.append('    #[unit(%s_u%d, "%s%d", %s)]' % (n, j, n.lower(), j, sc))
+        lines.append("    pub struct %s {}" % n)
+    lines.append("}")
+    return "\n".join(lines)
+
+
+def run_graphs(ctx, n_graphs=3):
+    import random
+    total = 0
+    for gi in range(n_graphs):
+        rnd = random.Random(ctx.seed * 1000003 + gi)
+        names, eqs = random_graph(rnd)
+        types = {n: "g::%s" % n for n in names}
+        types[AMT] = "quantities::AmountT"
+        table = predict(list(types), eqs)
+        defs = graph_source(names, eqs, rnd)
+        for label, feats, tgt in (("f64", [], "witness-c06-f64"), ("dec", ["fpdec"], "witness-c06-dec")):
+            src, index = gen(types, table)
+            # the definitions follow the matrix so that the line index of the programs is unchanged
+            full = src + "\n" + defs + "\n"
+            d = witness.workdir("c06-graph-%s" % label)
+            pkg = "c06g_%s" % label
+            witness.write_crate(d, pkg, features=feats, lib=full)
+            rc, recs, err = witness.cargo_check(d, tgt, ["--lib", "--keep-going"])
+            diags, arts = witness.diagnostics(recs)
+            if not any(n == "quantities" for (n, k) in arts):
+                ctx.fail("graph-build", "%s/graph%d" % (label, gi), "the repository crate did not build:\n" + err[-500:], "cargo check")
+                continue
+            rejected = {}
+            other = []
+            for (lvl, msg, f, line, col, code) in diags.get(pkg, []):
+                if lvl != "error" or msg.startswith(("aborting", "could not compile")):
+                    continue
+                if f and f.endswith("src/lib.rs") and line in index:
+                    rejected.setdefault(line, []).append(code)
+                else:
+                    other.append((msg.splitlines()[0][:100], line))
+            inst0 = "%s/graph%d[%s]" % (label, gi, "; ".join("%s=%s%s%s" % e for e in eqs))
+            ctx.ob("graph-definitions-compile", inst0, not other, "the generated (conflict-free) derivation graph itself is rejected: %s" % other[:2], "graph witness")
+            bad = []
+            for line, key in index.items():
+                want = table[key]
+                if (want is None) != (line in rejected):
+                    bad.append((key, want, rejected.get(line)))
+                total += 1
+            ctx.ob("graph-matrix", inst0, not bad,
+                   "rustc's verdict differs from the prediction for %d of %d programs, e.g. %s" % (len(bad), len(index), bad[:3]), "graph witness")
+            ctx.extra.setdefault("graphs", []).append({"backend": label, "equations": ["%s = %s %s %s" % e for e in eqs], "programs": len(index),
+                                                       "rejected": len(rejected)})
+    return total
